@@ -1,7 +1,10 @@
 """C10: every policy returns a complete, feasible, side-effect-free decision.
 (1) every schedule() call inside end-to-end runs; (2) shadow invocations: at each
 SCHEDULER_START the other bundled policies are invoked on the same live state, their
-answers are checked and discarded."""
+answers are checked and discarded; (3) the same shadow invocations inside direct-drive
+runs under the chaos policy (vmon/direct.py): states with plans in the future, overdue
+placements, re-plans, cancellations and tasks below a parent that carry their own known
+release time."""
 from .e2e_checks import E2ECheck, RULES
 
 RULES["C10"] = ("a world in which some schedule() call (live or shadow) saw running or previously scheduled tasks",
@@ -26,6 +29,11 @@ class PolicyCheck(E2ECheck):
         for p in ("EDFScheduler", "FIFOScheduler", "LSFScheduler", "ILPScheduler", "TetriSchedGurobiScheduler",
                   "TetriSchedCPLEXScheduler", "ClockworkScheduler", "Z3Scheduler"):
             out.append((f"calls of {p}", tot.get("schedule_calls_" + p, 0) + tot.get("shadow_calls_" + p, 0), 30))
+        out.append(("shadow calls on chaos-driven states (direct-drive)", tot.get("direct_shadow_calls", 0), 5000))
+        for p in ("ILPScheduler", "TetriSchedGurobiScheduler", "TetriSchedCPLEXScheduler", "Z3Scheduler"):
+            out.append((f"chaos-state calls of {p}", tot.get("direct_shadow_calls_" + p, 0), 20))
+        out.append(("chaos-state calls that offered a task with a known future release",
+                    tot.get("direct_shadow_calls_offered_future_release", 0), 30))
         return out
 
 
